@@ -161,7 +161,7 @@ def verify_propagation(ex, contract, timeout_ms=30000):
             F = st.heap
             obligs.append(Oblig("%s/own-field-is-the-argument" % name, st.pc, _same(F.get(self, sp["field"]), args[0]), "post", P19 + (("C07",) if sp["field"] == "commission_fn" else ())))
             n = E.list_len(self, "_childrenv")
-            o = Oblig("%s/every-child-has-the-setting" % name, st.pc, ForallInt(0, n, lambda j, F=F: _child_ok(sp, F, E, self, j, args[0]), name="jp"), "post", P19)
+            o = Oblig("%s/every-child-has-the-setting" % name, st.pc, ForallInt(0, n, lambda j, F=F: _child_ok(sp, F, E, self, j, args[0]), name="jp"), "post", P19 + (("C07",) if sp["field"] == "commission_fn" else ()))
             o.schemas = list(st.ghost.get("schemas", []))
             obligs.append(o)
             x = z3.Const(dsl.fresh_name("xfr"), dsl.Ref)
